@@ -132,6 +132,8 @@ class Sess:
         fl = sorted('%s:%s' % (f, r['kind']) for f, r in self.m.items() if r['kind'] != 'none')
         if 'forged-for-identity-key' in self.notes:
             fl = ['identity-public-key-forgery']       # whatever else was altered, the key is the identity
+        if 'forged-with-identity-ephemeral' in self.notes:
+            fl = ['identity-ephemeral-forgery'] + [f for f in fl if not f.startswith('forge:')]
         return fl
 
     def changed(self, field):
@@ -501,6 +503,8 @@ def o_ecies(s, ctx, v, out):
     # the shared secret is an x-coordinate: -R (or -Q at the sender) yields the same keys, so the
     # ciphertext is valid by the scheme's definition (benign malleability)
     changed = [f for f in ('pk', 'R') if s.changed(f) and not same_x(f)] + [f for f in ('ct',) if s.changed(f)]
+    if 'forged-with-identity-ephemeral' in s.notes:
+        changed.append('keyless-forgery')
     if any(s.changed(f) and same_x(f) for f in ('pk', 'R')):
         out.probe('legal-malleation')
     out.keys.add(('ecies', tuple(s.faults()), rc, min(len(s.msg), 70)))
@@ -581,7 +585,7 @@ SCHEMES.update({
     'ecdh': Spec('C06', 5, dict(qa='ec', qb='ec'), o_ecdh, opts=lambda rng: dict(klen=rng.choice([16, 32, 33, 64, 1]))),
     'ecmqv': Spec('C06', 5, dict(qa1='ec', qa2='ec', qb1='ec', qb2='ec'), o_ecmqv,
                   opts=lambda rng: dict(klen=rng.choice([16, 32, 48]))),
-    'ecies': Spec('C06', 5, dict(pk='ec', R='ec', ct='bytes'), o_ecies, weight=12),
+    'ecies': Spec('C06', 5, dict(pk='ec', R='ec', ct='bytes'), o_ecies, weight=12, extra_faults=[('forge', 'v_forgeinf')]),
     'phpe': Spec('C06', 6, dict(), o_phpe, ph=True, opts=lambda rng: dict(k=rng.randint(1, 4), cls=rng.choice([0, 0, 1, 2]), dup=rng.below(2)),
                  extra_faults=[('c0', 'drop'), ('c1', 'dup'), ('c0', 'dup'), ('c2', 'drop'), ('c1', 'drop')]),
     'sss': Spec('C06', 2, dict(sh0='bn', sh1='bn', sh2='bn', sh3='bn'), o_sss,
